@@ -11,3 +11,4 @@ ASSUMPTIONS = ["BufWriter::seek flushes its buffer before seeking; BufWriter::dr
 OBLIGATIONS = [K.MAGIC_OWNER, K.HEADER_LAST, K.MUST_FLUSH, K.ERR_DISC, K.JOIN_RESULTS, K.WRITER_LAYOUT[0], K.WRITER_LAYOUT[1], K.WRITER_UPDATE, K.CONSUMER]
 # type-resolved rules over the MIR facts (tools/bt-mir)
 OBLIGATIONS = OBLIGATIONS + [K.MIR_RESULTS]
+OBLIGATIONS = OBLIGATIONS + [K.EMPTY_AND_TOOL_REFUSALS, K.WRITER_LAYOUT[1]]
